@@ -25,6 +25,7 @@ Record pstate := {
   p_live : jfile;
   p_frozen : option jfile;
   p_fedit : bool;           (* memCompaction has appended the edit that supersedes the frozen journal *)
+  p_fseq : N;               (* db.frozenSeq: db.seq when the frozen buffer was rotated out *)
   p_man : list medit;
   p_msynced : nat;          (* number of manifest edits known durable *)
   p_seq : N;                (* db.seq *)
@@ -33,89 +34,9 @@ Record pstate := {
 }.
 
 Definition p_init : pstate :=
-  {| p_live := {| j_num := 1; j_recs := []; j_synced := 0 |}; p_frozen := None; p_fedit := false;
+  {| p_live := {| j_num := 1; j_recs := []; j_synced := 0 |}; p_frozen := None; p_fedit := false; p_fseq := 0;
      p_man := [{| m_jnum := Some 1; m_seq := Some 0; m_tab := [] |}]; p_msynced := 1;
      p_seq := 0; p_issued := []; p_acked := [] |}.
-
-Inductive pop :=
-| PWrite (n : N) (sync : bool)     (* journal append of a batch of n >= 1 records, then Sync if asked *)
-| PSyncJournal                     (* a later sync write also makes earlier records durable *)
-| PRotate                          (* newMem: the live journal becomes the frozen one *)
-| PFlushEdit                       (* table written and synced, edit appended to the manifest (not yet synced) *)
-| PManSync                         (* manifest Sync *)
-| PDropFrozen                      (* frozen journal removed (only after its edit is durable) *)
-| PTxnCommit (n : N)               (* transaction: table synced, one edit with the new sequence number *)
-| PCompactEdit.                    (* table compaction edit: no logical change *)
-
-Definition jappend (j : jfile) (b : batch) (sync : bool) : jfile :=
-  let recs := j_recs j ++ [b] in
-  {| j_num := j_num j; j_recs := recs; j_synced := if sync then length recs else j_synced j |}.
-
-Definition pstep (s : pstate) (o : pop) : pstate :=
-  match o with
-  | PWrite n sync =>
-      if n =? 0 then s else
-      let b := {| b_seq := p_seq s + 1; b_n := n |} in
-      {| p_live := jappend (p_live s) b sync; p_frozen := p_frozen s; p_fedit := p_fedit s; p_man := p_man s; p_msynced := p_msynced s;
-         p_seq := p_seq s + n; p_issued := p_issued s ++ [b];
-         p_acked := if sync then p_acked s ++ [b] else p_acked s |}
-  | PSyncJournal =>
-      {| p_live := {| j_num := j_num (p_live s); j_recs := j_recs (p_live s); j_synced := length (j_recs (p_live s)) |};
-         p_frozen := p_frozen s; p_fedit := p_fedit s; p_man := p_man s; p_msynced := p_msynced s; p_seq := p_seq s;
-         p_issued := p_issued s; p_acked := p_acked s |}
-  | PRotate =>
-      match p_frozen s with
-      | Some _ => s
-      | None =>
-          {| p_live := {| j_num := j_num (p_live s) + 1; j_recs := []; j_synced := 0 |};
-             p_frozen := Some (p_live s); p_fedit := false; p_man := p_man s; p_msynced := p_msynced s; p_seq := p_seq s;
-             p_issued := p_issued s; p_acked := p_acked s |}
-      end
-  | PFlushEdit =>
-      (* memCompaction skips an empty frozen buffer; otherwise the edit records the live journal's number
-         and the frozen buffer's last sequence number (db.frozenSeq) and adds the flushed table *)
-      match p_frozen s with
-      | Some f =>
-          match last (map Some (j_recs f)) None with
-          | Some bl =>
-              if p_fedit s then s else
-              {| p_live := p_live s; p_frozen := p_frozen s; p_fedit := true;
-                 p_man := p_man s ++ [{| m_jnum := Some (j_num (p_live s)); m_seq := Some (b_last bl);
-                                         m_tab := j_recs f |}];
-                 p_msynced := p_msynced s; p_seq := p_seq s; p_issued := p_issued s; p_acked := p_acked s |}
-          | None => s
-          end
-      | None => s
-      end
-  | PManSync =>
-      {| p_live := p_live s; p_frozen := p_frozen s; p_fedit := p_fedit s; p_man := p_man s; p_msynced := length (p_man s);
-         p_seq := p_seq s; p_issued := p_issued s; p_acked := p_acked s |}
-  | PDropFrozen =>
-      (* an empty frozen buffer is dropped without an edit; otherwise only after its edit is durable *)
-      if match p_frozen s with Some f => match j_recs f with [] => true | _ => false end | None => false end
-         || (p_fedit s && Nat.eqb (length (p_man s)) (p_msynced s)) then
-        {| p_live := p_live s; p_frozen := None; p_fedit := false; p_man := p_man s; p_msynced := p_msynced s;
-           p_seq := p_seq s; p_issued := p_issued s; p_acked := p_acked s |}
-      else s
-  | PTxnCommit n =>
-      (* OpenTransaction waits until there is no frozen buffer and the live one is empty *)
-      match p_frozen s, j_recs (p_live s) with
-      | None, [] =>
-          if n =? 0 then s else
-          let b := {| b_seq := p_seq s + 1; b_n := n |} in
-          {| p_live := p_live s; p_frozen := None; p_fedit := false;
-             p_man := p_man s ++ [{| m_jnum := None; m_seq := Some (p_seq s + n); m_tab := [b] |}];
-             p_msynced := S (length (p_man s));      (* Commit syncs the manifest before returning *)
-             p_seq := p_seq s + n; p_issued := p_issued s ++ [b]; p_acked := p_acked s ++ [b] |}
-      | _, _ => s
-      end
-  | PCompactEdit =>
-      {| p_live := p_live s; p_frozen := p_frozen s; p_fedit := p_fedit s;
-         p_man := p_man s ++ [{| m_jnum := None; m_seq := None; m_tab := [] |}];
-         p_msynced := p_msynced s; p_seq := p_seq s; p_issued := p_issued s; p_acked := p_acked s |}
-  end.
-
-Definition prun (ops : list pop) : pstate := fold_left pstep ops p_init.
 
 (* ---- crash images: per file any prefix of the records that contains the synced prefix ---- *)
 Record image := { i_live : jfile; i_frozen : option jfile; i_man : list medit }.
@@ -159,8 +80,126 @@ Fixpoint replay_journal (recs : list batch) (cur : N) (acc : list batch) : N * l
                  else replay_journal rest (b_seq b + b_n b) (acc ++ [b])
   end.
 
-Definition recover (img : image) : list batch :=
+Definition recover_full (img : image) : N * list batch :=
   let '(jn, sq, tabs) := replay_man (i_man img) 0 0 [] in
   let js := (match i_frozen img with Some f => [f] | None => [] end) ++ [i_live img] in
   let js := filter (fun j => jn <=? j_num j) js in
-  snd (fold_left (fun st j => replay_journal (j_recs j) (fst st) (snd st)) js (sq, tabs)).
+  fold_left (fun st j => replay_journal (j_recs j) (fst st) (snd st)) js (sq, tabs).
+
+Definition recover (img : image) : list batch := snd (recover_full img).
+
+(* the state in which a reopened DB finds itself after replaying the journals of a crash image into memory
+   (before it flushes them): everything found on storage is durable now; a frozen journal that the
+   manifest already supersedes is ignored; db.seq is the running number after the replay, and db.frozenSeq
+   plays the role of "db.seq after the older journal" for the table recovery is about to write from it *)
+Definition all_synced (j : jfile) : jfile := {| j_num := j_num j; j_recs := j_recs j; j_synced := length (j_recs j) |}.
+
+(* dur = true: the image is what survived a crash, hence durable; dur = false: a clean close and reopen — the
+   files are unchanged and what was not synced is still not synced *)
+Definition restart_state (s : pstate) (img : image) (dur : bool) : pstate :=
+  let '(jn, sq, tabs) := replay_man (i_man img) 0 0 [] in
+  let mark := fun j => if dur then all_synced j else j in
+  let fz := match i_frozen img with
+            | Some f => if jn <=? j_num f then Some (mark f) else None
+            | None => None
+            end in
+  let st1 := match fz with Some f => replay_journal (j_recs f) sq tabs | None => (sq, tabs) end in
+  let st2 := replay_journal (j_recs (i_live img)) (fst st1) (snd st1) in
+  {| p_live := mark (i_live img); p_frozen := fz; p_fedit := false; p_fseq := fst st1;
+     p_man := i_man img; p_msynced := if dur then length (i_man img) else p_msynced s; p_seq := fst st2;
+     p_issued := p_issued s; p_acked := p_acked s |}.
+
+(* the image in which nothing is lost and the sync marks are those of the state *)
+Definition full_image (s : pstate) : image :=
+  {| i_live := p_live s; i_frozen := p_frozen s; i_man := p_man s |}.
+
+
+Inductive pop :=
+| PWrite (n : N) (sync : bool)     (* journal append of a batch of n >= 1 records, then Sync if asked *)
+| PSyncJournal                     (* a later sync write also makes earlier records durable *)
+| PRotate                          (* newMem: the live journal becomes the frozen one *)
+| PFlushEdit                       (* table written and synced, edit appended to the manifest (not yet synced) *)
+| PManSync                         (* manifest Sync *)
+| PDropFrozen                      (* frozen journal removed (only after its edit is durable) *)
+| PTxnCommit (n : N)               (* transaction: table synced, one edit with the new sequence number *)
+| PCompactEdit                     (* table compaction edit: no logical change *)
+| PSkipSeq (n : N)                 (* a failed journal write: nothing durable, its sequence numbers consumed *)
+| PRestart (kl kf km : nat)        (* crash leaving the image (kl, kf, km), then reopen up to the in-memory replay;
+                                      the rest of recovery is PFlushEdit/PManSync/PDropFrozen/PRotate steps *)
+| PReopen.                         (* clean close (every manifest edit synced) and reopen *)
+
+Definition jappend (j : jfile) (b : batch) (sync : bool) : jfile :=
+  let recs := j_recs j ++ [b] in
+  {| j_num := j_num j; j_recs := recs; j_synced := if sync then length recs else j_synced j |}.
+
+Definition pstep (s : pstate) (o : pop) : pstate :=
+  match o with
+  | PWrite n sync =>
+      if n =? 0 then s else
+      let b := {| b_seq := p_seq s + 1; b_n := n |} in
+      {| p_live := jappend (p_live s) b sync; p_frozen := p_frozen s; p_fedit := p_fedit s; p_fseq := p_fseq s; p_man := p_man s; p_msynced := p_msynced s;
+         p_seq := p_seq s + n; p_issued := p_issued s ++ [b];
+         p_acked := if sync then p_acked s ++ [b] else p_acked s |}
+  | PSyncJournal =>
+      {| p_live := {| j_num := j_num (p_live s); j_recs := j_recs (p_live s); j_synced := length (j_recs (p_live s)) |};
+         p_frozen := p_frozen s; p_fedit := p_fedit s; p_fseq := p_fseq s; p_man := p_man s; p_msynced := p_msynced s; p_seq := p_seq s;
+         p_issued := p_issued s; p_acked := p_acked s |}
+  | PRotate =>
+      match p_frozen s with
+      | Some _ => s
+      | None =>
+          {| p_live := {| j_num := j_num (p_live s) + 1; j_recs := []; j_synced := 0 |};
+             p_frozen := Some (p_live s); p_fedit := false; p_fseq := p_seq s; p_man := p_man s; p_msynced := p_msynced s; p_seq := p_seq s;
+             p_issued := p_issued s; p_acked := p_acked s |}
+      end
+  | PFlushEdit =>
+      (* memCompaction skips an empty frozen buffer; otherwise the edit records the live journal's number
+         and the frozen buffer's last sequence number (db.frozenSeq) and adds the flushed table *)
+      match p_frozen s with
+      | Some f =>
+          match last (map Some (j_recs f)) None with
+          | Some bl =>
+              if p_fedit s then s else
+              {| p_live := p_live s; p_frozen := p_frozen s; p_fedit := true; p_fseq := p_fseq s;
+                 p_man := p_man s ++ [{| m_jnum := Some (j_num (p_live s)); m_seq := Some (p_fseq s);
+                                         m_tab := j_recs f |}];
+                 p_msynced := p_msynced s; p_seq := p_seq s; p_issued := p_issued s; p_acked := p_acked s |}
+          | None => s
+          end
+      | None => s
+      end
+  | PManSync =>
+      {| p_live := p_live s; p_frozen := p_frozen s; p_fedit := p_fedit s; p_fseq := p_fseq s; p_man := p_man s; p_msynced := length (p_man s);
+         p_seq := p_seq s; p_issued := p_issued s; p_acked := p_acked s |}
+  | PDropFrozen =>
+      (* an empty frozen buffer is dropped without an edit; otherwise only after its edit is durable *)
+      if match p_frozen s with Some f => match j_recs f with [] => true | _ => false end | None => false end
+         || (p_fedit s && Nat.eqb (length (p_man s)) (p_msynced s)) then
+        {| p_live := p_live s; p_frozen := None; p_fedit := false; p_fseq := p_fseq s; p_man := p_man s; p_msynced := p_msynced s;
+           p_seq := p_seq s; p_issued := p_issued s; p_acked := p_acked s |}
+      else s
+  | PTxnCommit n =>
+      (* OpenTransaction waits until there is no frozen buffer and the live one is empty *)
+      match p_frozen s, j_recs (p_live s) with
+      | None, [] =>
+          if n =? 0 then s else
+          let b := {| b_seq := p_seq s + 1; b_n := n |} in
+          {| p_live := p_live s; p_frozen := None; p_fedit := false; p_fseq := p_fseq s;
+             p_man := p_man s ++ [{| m_jnum := None; m_seq := Some (p_seq s + n); m_tab := [b] |}];
+             p_msynced := S (length (p_man s));      (* Commit syncs the manifest before returning *)
+             p_seq := p_seq s + n; p_issued := p_issued s ++ [b]; p_acked := p_acked s ++ [b] |}
+      | _, _ => s
+      end
+  | PSkipSeq n =>
+      {| p_live := p_live s; p_frozen := p_frozen s; p_fedit := p_fedit s; p_fseq := p_fseq s; p_man := p_man s;
+         p_msynced := p_msynced s; p_seq := p_seq s + n; p_issued := p_issued s; p_acked := p_acked s |}
+  | PRestart kl kf km => restart_state s (mk_image s kl kf km) true
+  | PReopen => if Nat.eqb (length (p_man s)) (p_msynced s) then restart_state s (full_image s) false else s
+  | PCompactEdit =>
+      {| p_live := p_live s; p_frozen := p_frozen s; p_fedit := p_fedit s; p_fseq := p_fseq s;
+         p_man := p_man s ++ [{| m_jnum := None; m_seq := None; m_tab := [] |}];
+         p_msynced := p_msynced s; p_seq := p_seq s; p_issued := p_issued s; p_acked := p_acked s |}
+  end.
+
+Definition prun (ops : list pop) : pstate := fold_left pstep ops p_init.
+
